@@ -4,7 +4,7 @@
     [run_case] compares model and implementation; [prop_case] evaluates the property (Spec.v) on
     the implementation's outcome alone. *)
 From V.Lib Require Import Base.
-From V.C18 Require Import Model Spec Store.
+From V.C18 Require Import Model Spec Store StoreFull.
 Local Open Scope Z_scope.
 
 Inductive event :=
@@ -23,19 +23,18 @@ Inductive event :=
 | ECancel | ESupersede | ERecompute.
 
 Inductive output :=
-| OUnit | OBool (b : bool) | OStep (st : step) (persisted : bool) | ORebuild (r : rebuild_res)
+| OUnit | OBool (b : bool) | OStep (st : step) (persisted : bool) (next : option (Z * skind)) | ORebuild (r : rebuild_res)
 | OStatuses (l : list txstatus) (expired : list Z)
 | OMemDisagree   (* the in-memory backend did not agree with the scripted store on an advance call *)
 | OPanic.
 (** persistence stream: the verdicts of the load-back ([latest_migration] / [get_migration] equal
     to what was written, at most one live migration, the in-memory backend of
-    zcash_pool_migration_memory agreeing with the SQLite store), and a plain [SELECT] dump of what
-    [replace_migration] wrote: the parent row's status / threshold / interval columns and the rows
-    of the transactions and dependency tables, in insertion order *)
+    zcash_pool_migration_memory agreeing with the SQLite store), the parts of the in-memory state
+    the state record does not carry (payloads, plan), and a plain [SELECT] dump, in insertion
+    order, of ALL the normalised tables [replace_migration] wrote *)
 Inductive pers :=
 | PNone
-| PRows (latest_ok get_ok one_live_ok mem_ok : bool) (st : status) (thr ivl : Z)
-        (rows : list txrow) (deps : list deprow).
+| PFull (latest_ok get_ok one_live_ok mem_ok : bool) (pay : list payload) (pl : plan) (tb : tables).
 
 Inductive case := Case (pre : mstate) (ev : event) (post : mstate) (out : output) (p : pers).
 
@@ -68,6 +67,12 @@ Definition step_eqb (a b : step) : bool :=
   | SReplan, SReplan | SReevaluate, SReevaluate | SWaiting, SWaiting | SComplete, SComplete => true
   | _, _ => false
   end.
+Definition skind_eqb (a b : skind) : bool :=
+  match a, b with
+  | KProve, KProve | KBroadcast, KBroadcast | KRebuild, KRebuild | KReplan, KReplan
+  | KReevaluate, KReevaluate | KWaiting, KWaiting | KComplete, KComplete => true
+  | _, _ => false
+  end.
 Definition action_eqb (a b : action) : bool := match a, b with AProve, AProve | ABroadcast, ABroadcast => true | _, _ => false end.
 Definition blocker_eqb (a b : blocker) : bool :=
   match a, b with
@@ -84,7 +89,7 @@ Definition output_eqb (a b : output) : bool :=
   match a, b with
   | OUnit, OUnit | OPanic, OPanic => true
   | OBool x, OBool y => Bool.eqb x y
-  | OStep s p, OStep s' p' => step_eqb s s' && Bool.eqb p p'
+  | OStep s p n, OStep s' p' n' => step_eqb s s' && Bool.eqb p p' && option_eqb (pair_eqb Z.eqb skind_eqb) n n'
   | OStatuses l e, OStatuses l' e' => list_eqb txstatus_eqb l l' && list_eqb Z.eqb e e'
   | ORebuild RbOk, ORebuild RbOk | ORebuild RbLate, ORebuild RbLate => true
   | ORebuild (RbErr e), ORebuild (RbErr e') =>
@@ -111,14 +116,40 @@ Definition txrow_eqb (a b : txrow) : bool :=
 Definition deprow_eqb (a b : deprow) : bool :=
   (d_tx a =? d_tx b) && Nat.eqb (d_ord a) (d_ord b) && (d_on a =? d_on b).
 
-(** the row model's prediction of what the store holds after [replace_migration post] *)
+Definition blob_eqb : blob -> blob -> bool := pair_eqb Z.eqb Z.eqb.
+Definition srcname_eqb (a b : srcname) : bool := match a, b with SWallet, SWallet | SPrior, SPrior => true | _, _ => false end.
+Definition prole_eqb (a b : prole) : bool :=
+  match a, b with RFunding, RFunding | RIntermediate, RIntermediate | RChange, RChange => true | _, _ => false end.
+Definition parentrow_eqb (a b : parentrow) : bool :=
+  status_eqb (pr_status a) (pr_status b) && (pr_fee_buffer a =? pr_fee_buffer b) && oz_eqb (pr_change a) (pr_change b)
+  && (pr_prep_fees a =? pr_prep_fees b) && (pr_total_input a =? pr_total_input b)
+  && (pr_total_migratable a =? pr_total_migratable b) && (pr_ivl a =? pr_ivl b) && (pr_thr a =? pr_thr b).
+Definition pinrow_eqb (a b : pinrow) : bool :=
+  Nat.eqb (pi_layer a) (pi_layer b) && Nat.eqb (pi_tx a) (pi_tx b) && Nat.eqb (pi_ord a) (pi_ord b)
+  && srcname_eqb (pi_src a) (pi_src b) && oz_eqb (pi_widx a) (pi_widx b) && oz_eqb (pi_pl a) (pi_pl b)
+  && oz_eqb (pi_pt a) (pi_pt b) && oz_eqb (pi_po a) (pi_po b) && (pi_val a =? pi_val b).
+Definition poutrow_eqb (a b : poutrow) : bool :=
+  Nat.eqb (po_layer a) (po_layer b) && Nat.eqb (po_tx a) (po_tx b) && Nat.eqb (po_ord a) (po_ord b)
+  && prole_eqb (po_role a) (po_role b) && (po_val a =? po_val b).
+Definition ordrow_eqb (a b : ordrow) : bool := Nat.eqb (o_ord a) (o_ord b) && (o_val a =? o_val b).
+Definition dirrow_eqb (a b : dirrow) : bool := Nat.eqb (dr_ord a) (dr_ord b) && (dr_widx a =? dr_widx b) && (dr_val a =? dr_val b).
+Definition nfrow_eqb (a b : nfrow) : bool := (n_tx a =? n_tx b) && Nat.eqb (n_ord a) (n_ord b) && blob_eqb (n_blob a) (n_blob b).
+Definition txpay_eqb (a b : txpay) : bool :=
+  (y_id a =? y_id b) && blob_eqb (y_pczt a) (y_pczt b) && option_eqb blob_eqb (y_lock a) (y_lock b).
+Definition tables_eqb (a b : tables) : bool :=
+  parentrow_eqb (tb_parent a) (tb_parent b) && list_eqb ordrow_eqb (tb_cross a) (tb_cross b)
+  && list_eqb pinrow_eqb (tb_pin a) (tb_pin b) && list_eqb poutrow_eqb (tb_pout a) (tb_pout b)
+  && list_eqb dirrow_eqb (tb_direct a) (tb_direct b) && list_eqb txrow_eqb (tb_tx a) (tb_tx b)
+  && list_eqb txpay_eqb (tb_txpay a) (tb_txpay b) && list_eqb deprow_eqb (tb_deps a) (tb_deps b)
+  && list_eqb nfrow_eqb (tb_nfs a) (tb_nfs b).
+
+(** the row model's prediction of what ALL the tables hold after [replace_migration] of the
+    state [post] with payloads [pay] and plan [pl] *)
 Definition rows_match (post : mstate) (p : pers) : bool :=
   match p with
   | PNone => true
-  | PRows _ _ _ _ st thr ivl rows deps =>
-    status_eqb st (m_status post) && (thr =? m_thr post) && (ivl =? m_ivl post)
-    && list_eqb txrow_eqb rows (fst (save_txs (m_txs post)))
-    && list_eqb deprow_eqb deps (snd (save_txs (m_txs post)))
+  | PFull _ _ _ _ pay pl tb =>
+    Nat.eqb (length pay) (length (m_txs post)) && tables_eqb (save_full (MkFull post pay pl)) tb
   end.
 
 (* ------------------------------------------------------------------------------------------ *)
@@ -139,9 +170,10 @@ Definition model_event (s : mstate) (ev : event) : option (mstate * output) :=
   | EStoreProof id => Some (set_transaction_proved s id, OUnit)
   | EApplySig id => let '(s', b) := apply_signature s id in Some (s', OBool b)
   | EAdvance sc est answers dflt mined ages =>
-    match advance (sat_of answers dflt) (mined_of mined) s (mk_targets sc est) (ages, O) with
-    | ARes st s' dirty => Some (s', OStep st dirty)
-    | AOutOfFuel => None
+    match advance (sat_of answers dflt) (mined_of mined) s (mk_targets sc est) (ages, O),
+          advance_outlook (sat_of answers dflt) (mined_of mined) s (mk_targets sc est) (ages, O) with
+    | ARes st s' dirty, Some nx => Some (s', OStep st dirty nx)
+    | _, _ => None
     end
   | ERecordBroadcast id => Some (mark_broadcast s id, OUnit)
   | EMarkMined id h => Some (mark_mined s id h, OUnit)
@@ -214,7 +246,7 @@ Definition prop_event (pre : mstate) (ev : event) (post : mstate) (out : output)
   && terminal_sticky_b (match ev with ERollback _ => true | _ => false end) pre post
   (* what the drive API offers *)
   && (match ev, out with
-      | EAdvance sc est answers dflt _ _, OStep st _ =>
+      | EAdvance sc est answers dflt _ _, OStep st _ _ =>
         let tg := mk_targets sc est in
         (match st with SBroadcast id => offer_safe_b post tg id | _ => true end)
         && no_strand_b post tg (is_notyet dflt || existsb (fun p => is_notyet (snd p)) answers) st
@@ -227,7 +259,7 @@ Definition prop_event (pre : mstate) (ev : event) (post : mstate) (out : output)
 Definition prop_case (c : case) : bool :=
   let '(Case pre ev post out p) := c in
   prop_event pre ev post out
-  && match p with PNone => true | PRows a b c m _ _ _ _ _ => a && b && c && m end.
+  && match p with PNone => true | PFull a b c m _ _ _ => a && b && c && m end.
 
 (** Classes of the two recordings that used to demote a row (1: a broadcast recorded on a row
     that is already mined; 2: a proof stored on a row that is already in flight or mined). Both
@@ -245,13 +277,13 @@ Definition known_class (c : case) : N :=
 (** path tags: event kind, and for Advance the step kind / whether anything was persisted *)
 Definition tag_case (c : case) : N :=
   let '(Case pre ev post out p) := c in
-  (match p with PNone => 0 | PRows _ _ _ _ _ _ _ _ _ => 100 end +
+  (match p with PNone => 0 | PFull _ _ _ _ _ _ _ => 100 end +
   match ev, out with
   | ENoop, _ => 1
   | EStoreProof id, _ => match state_of pre id with Some Signed => 2 | None => 3 | _ => 4 end
   | EApplySig _, OBool true => 5
   | EApplySig _, _ => 6
-  | EAdvance _ _ _ _ _ _, OStep st d =>
+  | EAdvance _ _ _ _ _ _, OStep st d _ =>
     (match st with SProve _ => 10 | SBroadcast _ => 11 | SRebuild _ => 12 | SReplan => 13
                  | SReevaluate => 14 | SWaiting => 15 | SComplete => 16 end)
     + (if d then 10 else 0)
